@@ -249,6 +249,16 @@ func ruleDiskFormula(r *core.Reporter) {
 					c, okc := ir.ConstFloat(a.Y)
 					return okc && c == 256*gib && ir.Strip(a.X) == ssa.Value(total)
 				})
+				if !g {
+					// the else side of `total > 256 GiB`
+					_, g = ir.GuardedBy(fn, ir.Entry(fn), in, false, func(a ir.Atom) bool {
+						if a.V != nil || a.Op != token.LSS {
+							return false
+						}
+						c, okc := ir.ConstFloat(a.X)
+						return okc && c == 256*gib && ir.Strip(a.Y) == ssa.Value(total)
+					})
+				}
 				okB = g
 			}
 		}
